@@ -178,7 +178,7 @@ def pay_ending(r, kind, code0=None):
         ev += tail
     return ev
 
-def story_case(r, ending=None, npieces=None, reject=None, nhash=1, heights=True, cfg=None, amount=None, second=False, burst=False, amountless=False, code0=None, late_extra=None):
+def story_case(r, ending=None, npieces=None, reject=None, nhash=1, heights=True, cfg=None, amount=None, second=False, burst=False, amountless=False, code0=None, late_extra=None, hangup=None):
     """One payment from first HTLC to its fate. reject: None | (kind, position)"""
     cfg = cfg or mk_cfg(r)
     b = CaseBuilder(r, cfg, nhash)
@@ -230,6 +230,10 @@ def story_case(r, ending=None, npieces=None, reject=None, nhash=1, heights=True,
         script.append({"e": "burst", "items": hts[k:]})
     else:
         for i, h in enumerate(hts):
+            if hangup is not None and i == hangup[0] and i > 0:
+                # the handler task of one HTLC already held goes away (hangup = (position, which of the held ones)); the rest of
+                # the set must still be resolved together
+                script.append({"e": "drain"}); script.append({"e": "hangup_nth", "nth": hangup[1] % i})
             script.append(h)
             for _ in range(r.below(4)): script.append({"e": "drain_step"})
             if heights and r.chance(1, 4): script.append({"e": "height", "v": r.below(2500)})
@@ -243,6 +247,8 @@ def story_case(r, ending=None, npieces=None, reject=None, nhash=1, heights=True,
         script.append(b.htlc(inv, r.choice([1000, 1, total]), total, expiry=max(1, lo - r.choice([1, 34, 100, 500])) if late_extra == "low_expiry" else lo + 7,
                              rel=pol[2] + r.below(300), amount_tlv=atlv))
     script.append({"e": "drain"})
+    if hangup is not None and hangup[0] >= len(hts) and len(hts) > 1:
+        script.append({"e": "hangup_nth", "nth": hangup[1] % len(hts)})
     script += pay_ending(r, ending or r.choice(PAY_ENDINGS), code0)
     script.append({"e": "drain"})
     if second:
@@ -250,7 +256,7 @@ def story_case(r, ending=None, npieces=None, reject=None, nhash=1, heights=True,
         at = len(script) - 1 - r.below(4)
         script.insert(max(0, at), b.htlc(inv, total, total, expiry=2200, rel=pol[2] + 50, amount_tlv=atlv))
         script += [{"e": "drain"}] + pay_ending(r, r.choice(PAY_ENDINGS)) + [{"e": "drain"}]
-    return {"cfg": cfg, "invoices": b.invoices, "preimages": b.preimages, "_script": script, "family": "%s/%s/%s%s%s" % ("burst" if burst else "story", ending, reject and reject[0], "/second" if second else "", "/amountless" if amountless else ""),
+    return {"cfg": cfg, "invoices": b.invoices, "preimages": b.preimages, "_script": script, "family": "%s/%s/%s%s%s%s" % ("burst" if burst else "story", ending, reject and reject[0], "/second" if second else "", "/amountless" if amountless else "", "/hangup" if hangup is not None else ""),
             "suffix": [{"e": "finale"}], "_b": b, "_probe": b.htlc(inv, total, total, expiry=5000, rel=pol[2] + 100, amount_tlv=atlv)}
 
 def straggler_case(r, ending=None):
